@@ -116,6 +116,19 @@ class Daemon:
             except ProcessLookupError:
                 pass
 
+    def stop(self, timeout=T_START):
+        """SIGTERM and wait.  munged tests `got_terminate` and then blocks in accept(): a SIGTERM that arrives in
+        between is only noticed at the next connection or signal, so the signal is repeated."""
+        t = time.time()
+        while time.time() - t < timeout:
+            self.term()
+            try:
+                self.proc.wait(0.4)
+                return self.proc.returncode
+            except subprocess.TimeoutExpired:
+                pass
+        return None
+
     def destroy(self):
         if self.proc.poll() is None:
             try:
@@ -379,17 +392,23 @@ class Model:
 
 
 # ---------------------------------------------------------------------------------------------- scenarios
+# Every scenario returns a dict with "oracle" (None, or what the property's own statement says is wrong) and "corr"
+# (the model-versus-binary comparisons); judge() records them after the re-run filter.
+
+def CORR(acc, kind, name, ok, detail=""):
+    acc.append((kind, name, bool(ok), detail))
+
 
 def scen_order(ctx, lab, model):
     """(1)+(4): one real start-up, canary, clean stop under strace.  Order of the security-relevant system calls
     against the model's program and against the generated call order; names afterwards."""
+    res_corr = []
     d = lab.newdir("order")
     a = Daemon(lab, d, "A", trace=True)
     ok = a.wait_serving()
     can = lab.ask(d) if ok else (False, "not serving")
     mid_names = lab.names(d)
-    a.term()
-    rc = a.wait_exit()
+    rc = a.stop()
     a.destroy()
     names = lab.names(d)
     ops = parse_trace(a.trace, lab, d)
@@ -399,14 +418,14 @@ def scen_order(ctx, lab, model):
     mops = st + sd
     meff = [mops[i] for i in effective(mops)]
     gen = gen_visible(model.ask("sys"))
-    res = {"scenario": "order", "dir": d, "serving": ok, "canary": can, "exit": rc, "names_after_stop": names,
+    res = {"scenario": "order", "corr": res_corr, "dir": d, "serving": ok, "canary": can, "exit": rc, "names_after_stop": names,
            "real_ops": real, "model_ops": meff, "real_calls": realg, "generated_calls": gen, "log": a.log() if not ok else ""}
-    ctx.obligation("correspondence", "system-call order of a real start-up + clean stop = the model's program (%d calls)" % len(meff),
+    CORR(res_corr, "correspondence", "system-call order of a real start-up + clean stop = the model's program (%d calls)" % len(meff),
                    real == meff, "real=%s model=%s" % (real, meff))
-    ctx.obligation("correspondence", "… = the generated callee order of main's normal path incl. umask (%d calls)" % len(gen),
+    CORR(res_corr, "correspondence", "… = the generated callee order of main's normal path incl. umask (%d calls)" % len(gen),
                    realg == gen, "real=%s generated=%s" % (realg, gen))
     pred = model.run("s1,X1,t1,X1")
-    ctx.obligation("correspondence", "names after a clean stop as the model predicts", pred["names"] == names,
+    CORR(res_corr, "correspondence", "names after a clean stop as the model predicts", pred["names"] == names,
                    "real=%s model=%s" % (names, pred["names"]))
     # property oracle, from the statement
     bad = None
@@ -426,10 +445,11 @@ def scen_order(ctx, lab, model):
 
 def scen_second(ctx, lab, model, k=1):
     """(2): k further starts against a live daemon, one after the other, the last ones concurrently."""
+    res_corr = []
     d = lab.newdir("second")
     a = Daemon(lab, d, "A")
     if not a.wait_serving():
-        return {"scenario": "second", "oracle": "first instance did not reach serving: " + a.log()}
+        return {"scenario": "second", "corr": res_corr, "oracle": "first instance did not reach serving: " + a.log()}
     before = lab.ident(d)
     bs = [Daemon(lab, d, "B%d" % i, trace=True) for i in range(k)]
     rcs = [b.wait_exit() for b in bs]
@@ -458,18 +478,19 @@ def scen_second(ctx, lab, model, k=1):
     pred = model.run("s1,X1," + ",".join("s%d,X%d" % (i + 2, i + 2) for i in range(k)))
     agree = pred["server"] == "1" and all(pred["ph"].get(i + 2) == "exit1" for i in range(k)) and \
         pred["names"] == lab.names(d)
-    ctx.obligation("correspondence", "%d start(s) against a live daemon: refused, as the model predicts" % k,
+    CORR(res_corr, "correspondence", "%d start(s) against a live daemon: refused, as the model predicts" % k,
                    agree == (bad is None), "real: rcs=%s alive=%s names=%s; model: %s" % (rcs, alive, lab.names(d), pred))
-    a.term(); a.wait_exit()
+    a.stop()
     for x in bs + [a]:
         x.destroy()
     ctx.dist("second_start_runs", k)
     ctx.distinct("second-%d" % k)
-    return {"scenario": "second", "k": k, "rcs": rcs, "before": before, "after": after, "canary": can, "oracle": bad}
+    return {"scenario": "second", "corr": res_corr, "k": k, "rcs": rcs, "before": before, "after": after, "canary": can, "oracle": bad}
 
 
 def scen_race(ctx, lab, model, k, rnd):
     """k concurrent starts on one socket, with random system-call delays to vary the interleaving."""
+    res_corr = []
     d = lab.newdir("race")
     ds = []
     delays = []
@@ -494,14 +515,12 @@ def scen_race(ctx, lab, model, k, rnd):
     elif any(x.proc.returncode == 0 for x in ds if not x.alive()):
         bad = "a refused instance exited with status 0"
     for x in alive:
-        x.term()
-    for x in alive:
-        x.wait_exit()
+        x.stop()
     for x in ds:
         x.destroy()
     ctx.dist("concurrent_start_rounds")
     ctx.distinct("race-%s" % "|".join(str(x) for x in delays))
-    return {"scenario": "race", "k": k, "delays": delays, "alive": len(alive), "canary": can, "oracle": bad}
+    return {"scenario": "race", "corr": res_corr, "k": k, "delays": delays, "alive": len(alive), "canary": can, "oracle": bad}
 
 
 def crash_points(ctx, lab, model):
@@ -513,7 +532,7 @@ def crash_points(ctx, lab, model):
     if not a.wait_serving():
         a.destroy()
         return [], "baseline did not reach serving: " + a.log()
-    a.term(); a.wait_exit(); a.destroy()
+    a.stop(); a.destroy()
     st, sd, reval = model_ops(model.ask("prog"))
     n_start = len(effective(st))
     pts, seen = [], 0
@@ -529,11 +548,12 @@ def crash_points(ctx, lab, model):
 def scen_crash(ctx, lab, model, pt, pt2=None):
     """(3): SIGKILL on entering the N-th call of a system call (start-up or shutdown), then a fresh start.
     With pt2: the first restart is itself killed at start-up point pt2, and a third instance must serve."""
+    res_corr = []
     d = lab.newdir("crash")
     a = Daemon(lab, d, "A", inject="%s:signal=KILL:when=%d" % (pt["syscall"], pt["when"]))
     if pt["phase"] == "stop":
         if a.wait_serving():        # (if it is already dead the kill hit a late call of start-up: a crash point as well)
-            a.term()
+            rc = a.stop()
     rc = a.wait_exit()
     a.destroy()
     ops = parse_trace(a.trace, lab, d)
@@ -556,7 +576,7 @@ def scen_crash(ctx, lab, model, pt, pt2=None):
     agree = rc is not None and any(p["names"] == left for p in preds)
     if agree:       # keep the model states that match what is on disk
         cands = [c for c, p in zip(cands, preds) if p["names"] == left]
-    ctx.obligation("correspondence", "SIGKILL at %s #%d (%s): names left behind as the model predicts" % (pt["syscall"], pt["when"], pt["phase"]),
+    CORR(res_corr, "correspondence", "SIGKILL at %s #%d (%s): names left behind as the model predicts" % (pt["syscall"], pt["when"], pt["phase"]),
                    agree, "real: left=%s done=%s killed_in=%s; model %s -> %s" % (left, done, killed_in, cands, [p["names"] for p in preds]))
     if pt2:
         x = Daemon(lab, d, "X", inject="%s:signal=KILL:when=%d" % (pt2["syscall"], pt2["when"]))
@@ -571,7 +591,7 @@ def scen_crash(ctx, lab, model, pt, pt2=None):
     can = lab.ask(d) if ok else (False, "not serving")
     blog = "" if ok else b.log()
     predb = [model.run(s + ",s2,X2") for s in cands]
-    ctx.obligation("correspondence", "… and the fresh start serves, as the model predicts",
+    CORR(res_corr, "correspondence", "… and the fresh start serves, as the model predicts",
                    any((p["ph"].get(2) == "serving" and p["server"] == "2") == (ok and can[0]) for p in predb),
                    "real ok=%s canary=%s; model=%s" % (ok, can, predb))
     bad = None
@@ -580,46 +600,48 @@ def scen_crash(ctx, lab, model, pt, pt2=None):
     elif not ok or not can[0]:
         bad = "after SIGKILL at %s #%d of %s (completed: %s) a fresh start without --force did not serve: %s %s" % (
             pt["syscall"], pt["when"], "start-up" if pt["phase"] == "start" else "shutdown", done, can[1], blog)
-    b.term()
-    rcb = b.wait_exit()
+    rcb = b.stop()
     after = lab.names(d)
     if bad is None and (rcb != 0 or after["sock"] or after["lock"] or after["pid"] or not after["seed"]):
         bad = "clean stop of the restarted daemon: status %s, names left %s" % (rcb, after)
     b.destroy()
     ctx.dist("crash_points_%s%s" % (pt["phase"], "_double" if pt2 else ""))
     ctx.distinct("crash-%s-%s" % (pt["at"], pt2["at"] if pt2 else ""))
-    return {"scenario": "crash", "pt": pt, "pt2": pt2, "victim_done": done, "killed_in": killed_in, "left": left, "restart_serving": ok,
+    return {"scenario": "crash", "corr": res_corr, "pt": pt, "pt2": pt2, "victim_done": done, "killed_in": killed_in, "left": left, "restart_serving": ok,
             "canary": can, "oracle": bad}
 
 
 def scen_kill_serving(ctx, lab, model):
     """SIGKILL while serving (quiescent), then a fresh start."""
+    res_corr = []
     d = lab.newdir("killserv")
     a = Daemon(lab, d, "A")
     if not a.wait_serving():
-        return {"scenario": "kill_serving", "oracle": "did not reach serving: " + a.log()}
+        return {"scenario": "kill_serving", "corr": res_corr, "oracle": "did not reach serving: " + a.log()}
     os.kill(a.mpid(), signal.SIGKILL)
     a.wait_exit(); a.destroy()
     left = lab.names(d)
     pred = model.run("s1,X1,k1")
-    ctx.obligation("correspondence", "SIGKILL while serving: names left behind as the model predicts", pred["names"] == left,
+    CORR(res_corr, "correspondence", "SIGKILL while serving: names left behind as the model predicts", pred["names"] == left,
                    "real=%s model=%s" % (left, pred["names"]))
     b = Daemon(lab, d, "B")
     ok = b.wait_serving()
     can = lab.ask(d) if ok else (False, "not serving")
     bad = None if ok and can[0] else "after SIGKILL of a serving daemon a fresh start without --force did not serve: %s %s" % (can[1], b.log())
-    b.term(); b.wait_exit(); b.destroy()
+    b.stop(); b.destroy()
     ctx.distinct("kill-serving")
-    return {"scenario": "kill_serving", "left": left, "oracle": bad}
+    return {"scenario": "kill_serving", "corr": res_corr, "left": left, "oracle": bad}
 
 
 def scen_f5(ctx, lab, model, c_first=False):
     """(5): A serves; B is held between open(lockfile) and F_SETLK; A is stopped cleanly; then either B continues and C
     starts afterwards, or (c_first) C starts and serves while B is still held and B continues afterwards."""
+    res_corr = []
     d = lab.newdir("f5")
     a = Daemon(lab, d, "A")
     if not a.wait_serving():
-        return {"scenario": "f5", "oracle": None, "skipped": "A did not reach serving: " + a.log()}
+        CORR(res_corr, "correspondence", "lock-file window schedule could be driven on the real binary", False, "A did not reach serving: " + a.log())
+        return {"scenario": "f5", "corr": res_corr, "oracle": None, "skipped": "A did not reach serving: " + a.log()}
     a_lock_ino = lab.ident(d)["lock"]
     b = Daemon(lab, d, "B", inject="fcntl:delay_enter=%d:when=1" % DELAY_US)
     # wait until B has the lock file open and sits in front of the fcntl
@@ -635,15 +657,14 @@ def scen_f5(ctx, lab, model, c_first=False):
             break
         time.sleep(0.002)
     t_open = time.time()
-    a.term()
-    rca = a.wait_exit()
+    rca = a.stop()
     t_stop = time.time() - t_open
-    in_window = opened and t_stop < DELAY_US / 1e6 * 0.8 and "F_SETLK" not in open(b.trace).read().split("resumed")[0][-1:]
+    in_window = opened and t_stop < DELAY_US / 1e6 * 0.8       # A was gone while B was still held
     if c_first:
         c = Daemon(lab, d, "C")
         c_serving = c.wait_serving()
         b_ident = lab.ident(d)
-        in_window = in_window and "F_SETLK" not in open(b.trace).read()
+        in_window = in_window and c_serving and time.time() - t_open < DELAY_US / 1e6 * 0.8
         # B goes on: it either serves (then the pid file names it) or exits
         t = time.time()
         while time.time() - t < DELAY_US / 1e6 + T_START and b.alive() and not b.serving():
@@ -681,18 +702,19 @@ def scen_f5(ctx, lab, model, c_first=False):
     k = st.index("setlk") if "setlk" in st else 0
     pred = model.run(("s1,X1,s2,x2*%d,t1,X1,s3,X3,X2" if c_first else "s1,X1,s2,x2*%d,t1,X1,X2,s3,X3") % k)
     m_alive = sorted(t for t, p in (("B", 2), ("C", 3)) if pred["ph"].get(p) in ("serving", "starting"))
-    ctx.obligation("correspondence", "lock-file window schedule (A stops while B is between open and F_SETLK; %s): survivors as the model predicts" %
+    CORR(res_corr, "correspondence", "lock-file window schedule (A stops while B is between open and F_SETLK; %s): survivors as the model predicts" %
                    ("C, then B" if c_first else "B, then C"),
-                   (not opened) or sorted(alive) == m_alive, "real alive=%s (B rc=%s, C rc=%s); model alive=%s %s" % (alive, rcb, rcc, m_alive, pred))
+                   (not in_window) or sorted(alive) == m_alive, "real alive=%s (B rc=%s, C rc=%s); model alive=%s %s" % (alive, rcb, rcc, m_alive, pred))
     for x in (b, c):
-        x.term()
-    for x in (b, c):
-        x.wait_exit()
+        x.stop()
     for x in (a, b, c):
         x.destroy()
     ctx.dist("f5_schedule_runs")
     ctx.distinct("f5-%s" % c_first)
-    return {"scenario": "f5", "c_first": c_first, "schedule": sched, "window_hit": opened, "alive": alive, "exit": {"A": rca, "B": rcb, "C": rcc},
+    if not in_window:
+        CORR(res_corr, "correspondence", "lock-file window schedule could be driven on the real binary", False,
+             "B was not held between open(lockfile) and F_SETLK long enough (opened=%s, A stopped after %.3f s)" % (opened, t_stop))
+    return {"scenario": "f5", "corr": res_corr, "c_first": c_first, "schedule": sched, "window_hit": in_window, "alive": alive, "exit": {"A": rca, "B": rcb, "C": rcc},
             "b_serving": b_serving, "c_serving": c_serving, "canary": can, "model": pred, "oracle": bad,
             "b_log": b.log()[-300:], "c_log": c.log()[-300:]}
 
@@ -700,22 +722,29 @@ def scen_f5(ctx, lab, model, c_first=False):
 # ---------------------------------------------------------------------------------------------- judging
 
 def judge(ctx, res, rerun, what):
-    """An oracle failure counts only if it reproduces on an immediate re-run."""
-    if not res or not res.get("oracle"):
-        return True
-    ctx.log("oracle failure (%s): %s — re-running" % (what, res["oracle"][:300]))
-    res2 = rerun()
-    if not res2.get("oracle"):
-        ctx.log("did not reproduce on the immediate re-run: logged, not reported")
-        ctx.cov.setdefault("flaky", []).append({"what": what, "first": res["oracle"][:300]})
+    """Record a scenario.  An oracle failure or a model/binary disagreement counts only if it shows again on an
+    immediate re-run (the second outcome is then the one recorded)."""
+    def wrong(r):
+        return bool(r.get("oracle")) or any(not c[2] for c in r.get("corr", []))
+    if wrong(res):
+        first = res.get("oracle") or [c[1] for c in res["corr"] if not c[2]]
+        ctx.log("%s: %s — re-running" % (what, str(first)[:300]))
+        res2 = rerun()
+        if not wrong(res2):
+            ctx.log("did not reproduce on the immediate re-run: logged, not reported")
+            ctx.cov.setdefault("flaky", []).append({"what": what, "first": str(first)[:300]})
+        res2["first_run"] = first
+        res = res2
+    for c in res.get("corr", []):
+        ctx.obligation(*c)
+    if not res.get("oracle"):
         return True
     # one VIOLATION line per kind of failure (the key also matches known_findings.json for F5)
-    key = F5_KEY if res2.get("scenario") == "f5" and "both alive" in res2["oracle"] else "C15-" + str(res2.get("scenario"))
-    ctx.obligation("oracle", what, False, res2["oracle"])
-    rep = {k: v for k, v in res2.items() if k not in ("oracle",)}
-    rep["reason"] = res2["oracle"]
-    rep["first_run"] = res["oracle"]
-    ctx.violation("%s: %s" % (what, res2["oracle"]), rep, found_input=True, finding_key=key)
+    key = F5_KEY if res.get("scenario") == "f5" and "both alive" in res["oracle"] else "C15-" + str(res.get("scenario"))
+    ctx.obligation("oracle", what, False, res["oracle"])
+    rep = {k: v for k, v in res.items() if k not in ("oracle", "corr")}
+    rep["reason"] = res["oracle"]
+    ctx.violation("%s: %s" % (what, res["oracle"]), rep, found_input=True, finding_key=key)
     return False
 
 
@@ -791,8 +820,6 @@ def run(ctx):
             for cf_ in (False, True):
                 r = scen_f5(ctx, lab, model, cf_)
                 ctx.sample("f5%s: alive=%s exit=%s" % ("/C-first" if cf_ else "", r.get("alive"), r.get("exit")))
-                if r.get("skipped") or not r.get("window_hit"):
-                    ctx.obligation("correspondence", "lock-file window schedule could be driven on the real binary", False, str(r)[:400])
                 judge(ctx, r, lambda: scen_f5(ctx, lab, model, cf_), "one daemon per socket (lock-file window)")
     finally:
         lab.cleanup()
